@@ -1322,7 +1322,15 @@ Proof.
   - (* EInfix *)
     apply andb_true_iff in Hm. destruct Hm as (Hmu & Hm). apply andb_true_iff in Hm. destruct Hm as (Hm1 & Hm2).
     apply negb_true_iff in Hmu.
-    rewrite compile_infix_eq in H.
+    destruct (tokty_eq_dec op TPeriod) as [->|Hne].
+    { (* `l.r`: code of l, one constant push, OpIndex (moded_operand r is not needed here) *)
+      destruct (compile_dot_inv _ _ _ _ _ H) as (c1 & name & E1 & En & ->).
+      pose proof (IHe g l c c1 d Hc E1 Hm1) as R1.
+      pose proof (Mx_const (VStr name) c1 (d + 1) (Mx_ok _ _ _ _ R1)) as R2.
+      destruct (infix_facts TPeriod OpIndex eq_refl) as (Hk & Hl & Hct & Hpp & Hpq).
+      eapply Mx_trans; [exact Hc|exact R1|]. eapply Mx_trans; [exact (Mx_ok _ _ _ _ R1)|exact R2|].
+      eapply Mx_eq; [apply (Mx_emit0 OpIndex _ (d + 1 + 1) 2 1 (Mx_ok _ _ _ _ R2) Hk Hl Hct Hpp Hpq); lia|lia]. }
+    rewrite compile_infix_eq in H by exact Hne.
     destruct (compile_expr f l c) as [[] c1| | |] eqn:E1; try discriminate. cbn [cbind] in H.
     destruct (compile_expr f r c1) as [[] c2| | |] eqn:E2; try discriminate. cbn [cbind] in H.
     pose proof (IHe g l c c1 d Hc E1 Hm1) as R1.
@@ -1428,7 +1436,7 @@ Proof.
   - (* EInfix *)
     destruct (is_mutator op) eqn:Em; [|exists (d + 1); split; [lia|]; eapply IHe'; eassumption].
     apply andb_true_iff in Hm. destruct Hm as (Hm1 & Hm2).
-    rewrite compile_infix_eq in H.
+    rewrite compile_infix_eq in H by (intros ->; discriminate Em).
     destruct (compile_expr f l c) as [[] c1| | |] eqn:E1; try discriminate. cbn [cbind] in H.
     destruct (compile_expr f r c1) as [[] c2| | |] eqn:E2; try discriminate. cbn [cbind] in H.
     pose proof (IHe g l c c1 d Hc E1 Hm1) as R1.
